@@ -58,14 +58,16 @@
 #define PQ_CAPMAX PQN        /* capacity bound of the PRE-state (growth may double it once) */
 #define PQ_PSZ (sizeof(struct aws_priority_queue_node *))
 
-#if VERIF_PQ_N == 7
+#if VERIF_PQ_N == 3
+#    define PQ_ALL(M, q, x) (M(q, x, 0) && M(q, x, 1) && M(q, x, 2))
+#elif VERIF_PQ_N == 7
 #    define PQ_ALL(M, q, x) (M(q, x, 0) && M(q, x, 1) && M(q, x, 2) && M(q, x, 3) && M(q, x, 4) && M(q, x, 5) && M(q, x, 6))
 #elif VERIF_PQ_N == 15
 #    define PQ_ALL(M, q, x)                                                                                            \
         (M(q, x, 0) && M(q, x, 1) && M(q, x, 2) && M(q, x, 3) && M(q, x, 4) && M(q, x, 5) && M(q, x, 6) && M(q, x, 7) && \
          M(q, x, 8) && M(q, x, 9) && M(q, x, 10) && M(q, x, 11) && M(q, x, 12) && M(q, x, 13) && M(q, x, 14))
 #else
-#    error "VERIF_PQ_N must be 7 or 15 (complete binary tree of depth 3 or 4)"
+#    error "VERIF_PQ_N must be 3, 7 or 15 (complete binary tree of depth 2, 3 or 4)"
 #endif
 
 /* ---- ghost state ---- */
